@@ -587,12 +587,14 @@ def embVal (v : Val) : R Val :=
     let r ← embItems emb l
     pure (.array r)
 
-/-- `_check_embedded_object` as far as a tupletree can fail it: the attribute value (when not empty) must be
-    'instance' or 'object' and the type 'string' -/
+/-- `_check_embedded_object` as far as a tupletree can fail it: the attribute value, when the attribute is present,
+    must be 'instance' or 'object' and the type 'string'.  An EMPTY value is rejected too since /repo ef0170b
+    (`if embedded_object is not False:` in the constructors; before, `''` slipped through the truth test and was
+    stored) - the embedded-object parse is still skipped for it, as in `parse_property` (`if embedded_object:`). -/
 def embAttrOk (embA : Option Str) (ty : Str) : Bool :=
   match embA with
-  | some (c :: cs) => ((c :: cs) = "instance".toList || (c :: cs) = "object".toList) && ty = "string".toList
-  | _ => true
+  | some v => (v = "instance".toList || v = "object".toList) && ty = "string".toList
+  | none => true
 
 /-- NocaseDict insertion of a named element: replace in place on a case-insensitively equal name -/
 def dictInsert {α} (nameOf : α → Str) (x : α) : List α → List α
